@@ -1,6 +1,6 @@
 use crate::diagnostic_emitter::MosResult;
 use crate::impl_notification_handler;
-use crate::lsp::{LspContext, NotificationHandler};
+use crate::lsp::{document_path, LspContext, NotificationHandler};
 use itertools::Itertools;
 use lsp_types::notification::{
     DidChangeTextDocument, DidCloseTextDocument, DidOpenTextDocument, PublishDiagnostics,
@@ -41,10 +41,12 @@ impl NotificationHandler<DidChangeTextDocument> for DidChangeTextDocumentHandler
 
 impl NotificationHandler<DidCloseTextDocument> for DidCloseTextDocumentHandler {
     fn handle(&self, ctx: &mut LspContext, params: DidCloseTextDocumentParams) -> MosResult<()> {
-        ctx.parsing_source()
-            .lock()
-            .unwrap()
-            .remove(&params.text_document.uri.to_file_path().unwrap());
+        let path = match document_path(&params.text_document.uri) {
+            Some(path) => path,
+            // Not a file, so it was never opened either
+            None => return Ok(()),
+        };
+        ctx.parsing_source().lock().unwrap().remove(&path);
         // From now on the file on disk counts again, so everything derived from the closed buffer is stale
         ctx.perform_codegen();
         publish_diagnostics(ctx)?;
@@ -53,9 +55,11 @@ impl NotificationHandler<DidCloseTextDocument> for DidCloseTextDocumentHandler {
 }
 
 fn register_document(ctx: &mut LspContext, uri: &Url, source: &str) {
-    let path = uri.to_file_path().unwrap();
-    ctx.parsing_source().lock().unwrap().insert(&path, source);
-    ctx.perform_codegen();
+    // A document that is not a file (e.g. 'untitled:Untitled-1') cannot be part of the project
+    if let Some(path) = document_path(uri) {
+        ctx.parsing_source().lock().unwrap().insert(&path, source);
+        ctx.perform_codegen();
+    }
 }
 
 fn publish_diagnostics(ctx: &mut LspContext) -> MosResult<()> {
